@@ -1357,6 +1357,13 @@ func (w *responseWriter) close() {
 		// treat as empty successful response
 		w.WriteHeader(http.StatusOK)
 	}
+	// Take the handler's trailers out of the header map before anything else: if
+	// closing the body below reports an error, they must not reach the client in
+	// the server protocol's form (e.g. 'Grpc-Status: 0' next to the error).
+	var trailer http.Header
+	if !w.endWritten && w.respMeta != nil {
+		trailer = httpExtractTrailers(w.Header(), w.respMeta.pendingTrailerKeys)
+	}
 	if w.w != nil {
 		_, _ = w.w.Write(nil) // trigger any final writes
 		_ = w.w.Close()
@@ -1370,7 +1377,6 @@ func (w *responseWriter) close() {
 		return
 	}
 	// try to get end from trailers
-	trailer := httpExtractTrailers(w.Header(), w.respMeta.pendingTrailerKeys)
 	end, err := w.op.server.protocol.extractEndFromTrailers(w.op, trailer)
 	if err != nil {
 		w.reportError(err)
